@@ -77,13 +77,16 @@ defvjp(solve, partial(grad_solve, 0), partial(grad_solve, 1))
 
 
 def norm_vjp(ans, x, ord=None, axis=None):
+    if isinstance(axis, tuple):
+        axis = tuple(a % x.ndim for a in axis)
+
     def check_implemented():
         matrix_norm = (x.ndim == 2 and axis is None) or isinstance(axis, tuple)
 
         if matrix_norm:
             if not (ord is None or ord == "fro" or ord == "nuc"):
                 raise NotImplementedError("Gradient of matrix norm not implemented for ord={}".format(ord))
-        elif not (ord is None or ord > 1):
+        elif not (ord is None or 1 < ord < float("inf")):
             raise NotImplementedError("Gradient of norm not implemented for ord={}".format(ord))
 
     if axis is None:
@@ -133,13 +136,16 @@ defvjp(norm, norm_vjp)
 
 
 def norm_jvp(g, ans, x, ord=None, axis=None):
+    if isinstance(axis, tuple):
+        axis = tuple(a % x.ndim for a in axis)
+
     def check_implemented():
         matrix_norm = (x.ndim == 2 and axis is None) or isinstance(axis, tuple)
 
         if matrix_norm:
             if not (ord is None or ord == "fro" or ord == "nuc"):
                 raise NotImplementedError("Gradient of matrix norm not implemented for ord={}".format(ord))
-        elif not (ord is None or ord > 1):
+        elif not (ord is None or 1 < ord < float("inf")):
             raise NotImplementedError("Gradient of norm not implemented for ord={}".format(ord))
 
     if axis is None:
